@@ -225,6 +225,9 @@ pub fn load_known(verif_dir: &Path) -> Vec<Known> {
 
 /// Executes a scenario in this process (used by `replay`, which is a fresh process already).
 pub fn run_here(scn: &Scenario, transcript: bool) -> (Option<Violation>, RunStats) {
+    // the deterministic random stream starts before anything is forked, so that the reference
+    // server and its children are inside it too
+    crate::world::random_begin_scenario();
     if scn.needs_fresh_reference() {
         crate::iso::start_reference_server();
     }
